@@ -20,7 +20,8 @@ CONSTANTS Sync,       \* syncPeriodSeconds
           Steps,      \* possible times between consecutive loop() calls (ms)
           TMax,       \* horizon (ms)
           Mode,       \* "distinct" (backup # reference) | "same" (backup = reference) | "none" (no reference clock)
-          Preset      \* value given to setNow() before the first loop() call (PresetNone: the clock starts unset)
+          Preset,     \* value given to setNow() before the first loop() call (PresetNone: the clock starts unset)
+          ExtraRef    \* further absolute values the reference clock may report (e.g. {0}: the epoch itself)
 
 Inv == -999999       \* stands for kInvalidSeconds
 PresetNone == -999999
@@ -43,7 +44,7 @@ Init == /\ now = 0 /\ status = "Ready" /\ cur = Initial /\ reqStart = 0 /\ lastS
         /\ lastReqAt = -1 /\ needGap = 0 /\ ev = "init"
 
 \* the value a valid reference clock reports at time t (true time + 100 s), possibly skewed
-RefValues(t) == {(t \div 1000) + 100, (t \div 1000) + 107, Inv}
+RefValues(t) == {(t \div 1000) + 100, (t \div 1000) + 107, Inv} \cup ExtraRef
 
 \* keepAlive(): getNow() at time t. The clock keeps only the low 16 bits of the millisecond counter: whole seconds of the
 \* elapsed time *modulo 65536 ms* are folded in (exact as long as the clock is looked at every 65.535 s, the documented bound)
